@@ -57,7 +57,7 @@ TAL_BASIC = [K("k3::S-Define"), K("k3::S-Define-clauses"), K("k3::S-Define-tuple
 
 S_TALES = [K("k3::S-Pipe3"), K("k3::S-Not"), K("k3::S-Exists"), K("k3::S-LambdaScope")]
 S_INTERP = [K("k3::S-Interp-text"), K("k3::S-Interp-off"), K("k3::S-Interp-lines"),
-            K("k3::S-Interp-percent")]
+            K("k3::S-Interp-percent"), K("k3::S-Cdata-then-text")]
 S_I18N = [K("k3::S-Translate-name"), K("k3::S-Translate-name-condition"), K("k3::S-Translate-id"), K("k3::S-Translate-empty"),
           K("k3::S-I18nDomain"), K("k3::S-I18nContext"), K("k3::S-I18nTarget"), K("k3::S-I18nAttributes"), K("k3::S-I18nAttributes-two"),
           K("k3::S-Content-translate")]
@@ -322,6 +322,7 @@ PROPS = {
                         # the sinks: every schema that inserts a value states which __quote call it goes through
                         K("k3::S-Content"), K("k3::S-Content-translate"), K("k3::S-Attribute"),
                         K("k3::S-Interp-text"), K("k3::S-Interp-percent"), K("k3::S-Comment-interp"),
+                        K("k3::S-Cdata-then-text"),
                         K("k3::S-OnError-keep")],
         "not_decided": ["sinks: which quote/entity each emitted call site passes (decided per schema: S-Content, S-Attribute, S-Interp-*, S-Comment-interp)",
                         "'same elements and attributes as for a harmless value' follows from G1-G3 by "
